@@ -365,6 +365,16 @@ def infer (hs : List Str) : Except Err Ty :=
   | .ok (t, _) => .ok t
   | .error e => .error e
 
+/-- contentindexparser.py 266-268: with a blank `data_model` the row model of a data sheet is
+`model_from_headers(sheet_name, data_table.headers)` — the cells are not an argument. -/
+def inferSheet (headers : List Str) (_cells : List (List Str)) : Except Err Ty := infer headers
+
+/-- `infer hs` succeeded with (structurally) `t` -/
+def inferIs (hs : List Str) (t : Ty) : Bool :=
+  match infer hs with
+  | .ok t' => Ty.beq t' t
+  | .error _ => false
+
 /-! ### the inverse used by the generators: schema → annotated headers -/
 
 def renderTy : Ty → Str
@@ -474,6 +484,9 @@ def famFs : List (Str × Ty × Val) → Bool
   | [] => true
   | (_, t, d) :: fs => famTD t d && famFs fs
 end
+
+/-- the round trip of `infer_render`, as a computation -/
+def roundtripB (sch : Schema) : Bool := inferIs (renderHeaders sch) (.model sch)
 
 def inFamilyB (sch : Schema) : Bool := famFs sch && namesOk sch
 
